@@ -242,23 +242,31 @@ func storeSlashingProtection(ctx context.Context, protection *SlashingProtection
 			}
 		}
 
-		existingKeyProtection, exists := existingProtection[key]
-		if exists {
-			// We already have an entry; only add this if it contains newer data.
-			if existingKeyProtection.HighestAttestedSourceEpoch <= keyProtection.HighestAttestedSourceEpoch &&
-				existingKeyProtection.HighestAttestedTargetEpoch <= keyProtection.HighestAttestedTargetEpoch &&
-				existingKeyProtection.HighestProposedSlot <= keyProtection.HighestProposedSlot {
-				protectionMap[key] = keyProtection
-			} else {
-				fmt.Fprintf(os.Stdout, "Existing entry for public key %#x contains newer data; not importing\n", key)
-			}
-		} else {
-			protectionMap[key] = keyProtection
+		// Never lower a value: merge with any earlier entry for this key in the file, and with the existing data.
+		if earlierKeyProtection, exists := protectionMap[key]; exists {
+			raiseSlashingProtection(keyProtection, earlierKeyProtection)
 		}
+		if existingKeyProtection, exists := existingProtection[key]; exists {
+			raiseSlashingProtection(keyProtection, existingKeyProtection)
+		}
+		protectionMap[key] = keyProtection
 	}
 	if err := rulesSvc.ImportSlashingProtection(ctx, protectionMap); err != nil {
 		return errors.Wrap(err, "failed to obtain slashing protection")
 	}
 
 	return nil
+}
+
+// raiseSlashingProtection raises each value of dst to at least the corresponding value of src.
+func raiseSlashingProtection(dst *rules.SlashingProtection, src *rules.SlashingProtection) {
+	if src.HighestAttestedSourceEpoch > dst.HighestAttestedSourceEpoch {
+		dst.HighestAttestedSourceEpoch = src.HighestAttestedSourceEpoch
+	}
+	if src.HighestAttestedTargetEpoch > dst.HighestAttestedTargetEpoch {
+		dst.HighestAttestedTargetEpoch = src.HighestAttestedTargetEpoch
+	}
+	if src.HighestProposedSlot > dst.HighestProposedSlot {
+		dst.HighestProposedSlot = src.HighestProposedSlot
+	}
 }
